@@ -6,7 +6,7 @@ From Coq Require Import String List NArith Bool.
 From J5V.lib Require Import Outcome Strcase.
 From J5V.model Require Import J5sAst Desc J5sWalk J5sLink J5sConvert J5sContract J5sSymbols J5sTypeNames J5sValid J5sEdit J5sCorr.
 From J5V.proofs Require Import J5sProofs J5sContractProofs J5sLinkProofs J5sCompileProofs J5sSubPkgProofs J5sDepsProofs
-  J5sNameProofs J5sTypeNameProofs StrcaseProofs J5sStrcaseProofs J5sInfraDepsProofs J5sExtProofs J5sC13Proofs.
+  J5sNameProofs J5sTypeNameProofs StrcaseProofs J5sStrcaseProofs J5sInfraDepsProofs J5sExtProofs J5sPkgExtProofs J5sC13Proofs.
 Import ListNotations.
 Local Open Scope N_scope.
 
@@ -99,4 +99,221 @@ Theorem compile_sub_tnames_valid bd pkg D :
 Proof.
   intros Hv Hc. exact (compile_sub_tnames to_snake to_camel to_screaming_snake to_camel_nodot to_snake_nodot
                          bd pkg D Hv (valid_pkgs_nonempty _ _ _ bd Hv) Hc).
+Qed.
+
+(* ---- C13 for histories of ONE source file: only the first and the last version need to be
+   valid (the intermediate versions need not even compile - e.g. a field referring to a type
+   that a later edit of the sequence declares).  The general theorem (c13_full_valid) walks
+   through the intermediate bundles because its single step replaces one file; when every edit
+   addresses the same file the whole sequence is one step. *)
+Lemma nth_error_update_same {A} (g : A -> A) l : forall k x, nth_error l k = Some x -> nth_error (update_nth k g l) k = Some (g x).
+Proof.
+  induction l as [|y r IH]; intros k x Hk; destruct k; cbn in Hk; try discriminate; cbn [update_nth nth_error].
+  - inversion Hk. reflexivity.
+  - apply IH. exact Hk.
+Qed.
+
+Lemma update_nth_twice_const {A} (a c : A) l : forall k,
+  update_nth k (fun _ => c) (update_nth k (fun _ => a) l) = update_nth k (fun _ => c) l.
+Proof. induction l as [|y r IH]; intros k; destruct k; cbn [update_nth]; try reflexivity. f_equal. apply IH. Qed.
+
+Lemma apply_edits_same_file es : forall bd k f,
+  nth_error bd k = Some (BJ f) -> (forall e, In e es -> edit_target e = k) ->
+  apply_edits bd es = update_nth k (fun _ => BJ (fold_left (fun g e => edit_file e g) es f)) bd.
+Proof.
+  induction es as [|e r IH]; intros bd k f Hk Ht; cbn [apply_edits fold_left].
+  - clear Ht. revert k Hk. induction bd as [|x t IHb]; intros k Hk; destruct k; cbn in Hk; try discriminate; cbn [update_nth].
+    + inversion Hk. reflexivity.
+    + f_equal. apply IHb. exact Hk.
+  - change (fold_left apply_edit r (apply_edit bd e)) with (apply_edits (apply_edit bd e) r).
+    assert (He : apply_edit bd e = update_nth k (fun _ => BJ (edit_file e f)) bd).
+    { unfold apply_edit. rewrite (Ht e (or_introl eq_refl)). rewrite (update_nth_const _ _ _ _ Hk). reflexivity. }
+    rewrite He.
+    rewrite (IH _ k (edit_file e f)).
+    + apply update_nth_twice_const.
+    + exact (nth_error_update_same _ bd k (BJ f) Hk).
+    + intros e' He'. apply Ht. right. exact He'.
+Qed.
+
+Theorem c13_single_file : forall es bd pkg k f,
+  valid bd = true -> nth_error bd k = Some (BJ f) -> (forall e, In e es -> edit_target e = k) ->
+  valid (apply_edits bd es) = true ->
+  (exists x, In x bd /\ bfile_pkg x = pkg) ->
+  exists D D', compile bd pkg = Ok D /\ compile (apply_edits bd es) pkg = Ok D' /\ files_ext D D'.
+Proof.
+  intros es bd pkg k f Hv Hk Ht Hv' Hex.
+  destruct (compile_correct_full to_snake to_camel to_screaming_snake bd pkg Hv Hex) as (D & Hc & _).
+  set (f' := fold_left (fun g e => edit_file e g) es f) in *.
+  pose proof (edit_sequence_ext es f) as Hext. fold f' in Hext.
+  assert (Hn : NoDup (map bfile_path bd)).
+  { unfold valid, valid_bundle in Hv. apply andb_true_iff in Hv. destruct Hv as [_ Hd]. apply distinct_nodup. exact Hd. }
+  assert (Heq : apply_edits bd es = map (replace_file f') bd).
+  { rewrite (apply_edits_same_file es bd k f Hk Ht). fold f'.
+    apply update_nth_replace with (j := f); [exact Hn|exact Hk|]. apply (src_ext_path _ _ Hext). }
+  assert (Honly : forall x, In x bd -> bfile_path x = j5s_path f -> x = BJ f).
+  { intros x Hx Hp. eapply (nodup_map_inj bfile_path); [exact Hn|exact Hx|eapply nth_error_In; exact Hk|exact Hp]. }
+  rewrite Heq in Hv' |- *.
+  destruct (compile_ext_strcase bd f f' pkg D Hext Honly (valid_pkgs_nonempty _ _ _ bd Hv) Hv Hv' Hex Hc) as (D' & Hc' & He).
+  exists D, D'. auto.
+Qed.
+
+(* ================================================================== histories over several files *)
+(* the single step of c13_full for ANY map [g] of the bundle that keeps path and package of
+   every file and extends every source file: only the two ends need to be valid *)
+Section FullG.
+Variables snake camel screaming : str -> str.
+Hypothesis Hcamel : forall s, nodot_b (camel s) = true.
+Hypothesis Hsnake : forall s, nodot_b (snake s) = true.
+
+Theorem compile_package_ext_g bd (g : bfile -> bfile) pkg D :
+  (forall x, In x bd -> bfile_path (g x) = bfile_path x /\ bfile_pkg (g x) = bfile_pkg x) ->
+  (forall x, In x bd ->
+     (exists j j', x = BJ j /\ g x = BJ j' /\ file_src_ext j j') \/ (exists p, x = BP p /\ g x = BP p)) ->
+  (forall x, In x bd -> bfile_pkg x <> []) ->
+  valid_bundle snake camel screaming bd = true ->
+  valid_bundle snake camel screaming (map g bd) = true ->
+  (exists x, In x bd /\ bfile_pkg x = pkg) ->
+  compile_package snake camel screaming bd pkg = Ok D ->
+  exists D', compile_package snake camel screaming (map g bd) pkg = Ok D' /\ files_ext D D'.
+Proof.
+  intros Hgp Hgr Hne Hv Hv' (x0 & Hx0 & Hp0) H.
+  set (bd' := map g bd) in *.
+  assert (Hne' : forall x, In x bd' -> bfile_pkg x <> []).
+  { intros x Hx. apply in_map_iff in Hx. destruct Hx as (y & <- & Hy).
+    rewrite (proj2 (Hgp y Hy)). apply Hne. exact Hy. }
+  assert (Hex' : exists x, In x bd' /\ bfile_pkg x = pkg).
+  { exists (g x0). split; [apply in_map; exact Hx0|]. rewrite (proj2 (Hgp x0 Hx0)). exact Hp0. }
+  destruct (compile_total snake camel screaming bd' pkg Hv' Hex') as [D' HD']. exists D'. split; [exact HD'|].
+  apply (compile_package_inv snake camel screaming) in H. destruct H as (fs & Efs & _ & El & _).
+  apply (compile_package_inv snake camel screaming) in HD'. destruct HD' as (fs' & Efs' & _ & El' & _).
+  assert (Hdist : forall p l, pkg_exports camel bd' p = Some l -> J5sValid.distinct (map tr_name l) = true).
+  { intros p l Hl. unfold valid_bundle in Hv'. apply andb_true_iff in Hv'. destruct Hv' as [Hv' _].
+    apply andb_true_iff in Hv'. destruct Hv' as [Hv' _].
+    apply andb_true_iff in Hv'. destruct Hv' as [_ Hv']. rewrite forallb_forall in Hv'.
+    unfold pkg_exports in Hl. destruct (pkg_files bd' p) as [|y r] eqn:E; [discriminate|].
+    assert (Hy : In y bd') by (assert (In y (pkg_files bd' p)) by (rewrite E; left; reflexivity); apply in_pkg_files_iff in H; destruct H; assumption).
+    assert (Hpy : bfile_pkg y = p) by (assert (In y (pkg_files bd' p)) by (rewrite E; left; reflexivity); apply in_pkg_files_iff in H; destruct H; assumption).
+    specialize (Hv' (bfile_pkg y) (in_map bfile_pkg _ _ Hy)). rewrite Hpy in Hv'. unfold pkg_exports in Hv'. rewrite E in Hv'.
+    inversion Hl. subst l. exact Hv'. }
+  pose proof (convert_package_ext_g snake camel screaming bd g Hgp Hgr pkg fs fs' Hdist Efs Efs') as Hfe.
+  eapply link_files_ext; [| |exact Hfe|exact El|exact El'].
+  - exact (convert_package_inv snake camel screaming Hcamel Hsnake bd pkg fs Hne Hv Efs).
+  - exact (convert_package_inv snake camel screaming Hcamel Hsnake bd' pkg fs' Hne' Hv' Efs').
+Qed.
+
+End FullG.
+
+(* what a sequence of append edits does to a bundle, file by file: source files are extended
+   (file_src_ext: no validity involved), hand-written .proto files stay *)
+Definition bfile_ext (x y : bfile) : Prop :=
+  match x, y with
+  | BJ j, BJ j' => file_src_ext j j'
+  | BP p, BP q => p = q
+  | _, _ => False
+  end.
+
+Lemma bfile_ext_refl x : bfile_ext x x.
+Proof. destruct x; cbn; [apply file_src_ext_refl|reflexivity]. Qed.
+
+Lemma bfile_ext_trans x y z : bfile_ext x y -> bfile_ext y z -> bfile_ext x z.
+Proof.
+  destruct x, y, z; cbn; try contradiction; intros H1 H2.
+  - eapply file_src_ext_trans; eassumption.
+  - congruence.
+Qed.
+
+Lemma forall2_refl_b (l : bundle) : Forall2 bfile_ext l l.
+Proof. induction l; constructor; [apply bfile_ext_refl|assumption]. Qed.
+
+Lemma apply_edit_bext bd e : Forall2 bfile_ext bd (apply_edit bd e).
+Proof.
+  unfold apply_edit. generalize (edit_target e) as k. induction bd as [|x r IH]; intros k; destruct k; cbn [update_nth]; constructor.
+  - destruct x as [j|p]; cbn; [apply edit_file_ext|reflexivity].
+  - apply forall2_refl_b.
+  - apply bfile_ext_refl.
+  - apply IH.
+Qed.
+
+Lemma forall2_bext_trans : forall a c d : bundle, Forall2 bfile_ext a c -> Forall2 bfile_ext c d -> Forall2 bfile_ext a d.
+Proof.
+  intros a c d H. revert d. induction H as [|x y l l' Hxy H IH]; intros d H'; inversion H'; subst; constructor.
+  - eapply bfile_ext_trans; eassumption.
+  - apply IH. assumption.
+Qed.
+
+Lemma apply_edits_bext es : forall bd, Forall2 bfile_ext bd (apply_edits bd es).
+Proof.
+  induction es as [|e r IH]; intros bd; cbn [apply_edits fold_left]; [apply forall2_refl_b|].
+  eapply forall2_bext_trans; [apply apply_edit_bext|apply IH].
+Qed.
+
+Lemma bfile_ext_path x y : bfile_ext x y -> bfile_path y = bfile_path x /\ bfile_pkg y = bfile_pkg x.
+Proof.
+  destruct x as [j|p], y as [j'|q]; cbn; try contradiction; intros H.
+  - exact (src_ext_path _ _ H).
+  - subst. auto.
+Qed.
+
+Lemma find_app_none {A} (f : A -> bool) pre l : (forall z, In z pre -> f z = false) -> find f (pre ++ l) = find f l.
+Proof.
+  induction pre as [|a r IH]; intros H; cbn [app find]; [reflexivity|].
+  rewrite (H a (or_introl eq_refl)). apply IH. intros z Hz. apply H. right. exact Hz.
+Qed.
+
+(* the map: every file goes to the file of the same path in the new bundle *)
+Definition by_path (bd' : bundle) (x : bfile) : bfile :=
+  match find (fun y => str_eqb (bfile_path y) (bfile_path x)) bd' with Some y => y | None => x end.
+
+Lemma by_path_map : forall bd bd', Forall2 bfile_ext bd bd' -> NoDup (map bfile_path bd) ->
+  forall pre, (forall y, In y pre -> ~ In (bfile_path y) (map bfile_path bd)) ->
+  map (by_path (pre ++ bd')) bd = bd'.
+Proof.
+  intros bd bd' H. induction H as [|x y l l' Hxy H IH]; intros Hn pre Hpre; [reflexivity|].
+  cbn [map]. inversion Hn as [|? ? Hnx Hnl]. subst.
+  destruct (bfile_ext_path _ _ Hxy) as [Hp _].
+  f_equal.
+  - unfold by_path. rewrite find_app_none.
+    + cbn [find]. rewrite Hp, str_eqb_refl. reflexivity.
+    + intros z Hz. destruct (str_eqb (bfile_path z) (bfile_path x)) eqn:E; [|reflexivity].
+      apply str_eqb_eq in E. exfalso. apply (Hpre z Hz). left. symmetry. exact E.
+  - replace (pre ++ y :: l') with ((pre ++ [y]) ++ l') by (rewrite <- app_assoc; reflexivity).
+    apply IH; [exact Hnl|].
+    intros z Hz. apply in_app_or in Hz. destruct Hz as [Hz|[<-|[]]].
+    + intros Hi. apply (Hpre z Hz). right. exact Hi.
+    + rewrite Hp. exact Hnx.
+Qed.
+
+Lemma forall2_map_in {A} (R : A -> A -> Prop) (g : A -> A) l : Forall2 R l (map g l) -> forall x, In x l -> R x (g x).
+Proof.
+  induction l as [|a r IH]; intros H x Hx; [destruct Hx|]. cbn [map] in H. inversion H; subst.
+  destruct Hx as [<-|Hx]; [assumption|apply IH; assumption].
+Qed.
+
+(* C13 for ANY history of append edits, over any number of files: only the first and the last
+   version of the bundle must be valid.  (Edits that address no source file - an index out of
+   range, a hand-written .proto file - change nothing.) *)
+Theorem c13_histories : forall es bd pkg,
+  valid bd = true -> valid (apply_edits bd es) = true ->
+  (exists x, In x bd /\ bfile_pkg x = pkg) ->
+  exists D D', compile bd pkg = Ok D /\ compile (apply_edits bd es) pkg = Ok D' /\ files_ext D D'.
+Proof.
+  intros es bd pkg Hv Hv' Hex.
+  destruct (compile_correct_full to_snake to_camel to_screaming_snake bd pkg Hv Hex) as (D & Hc & _).
+  set (bd' := apply_edits bd es) in *.
+  pose proof (apply_edits_bext es bd) as Hb. fold bd' in Hb.
+  assert (Hn : NoDup (map bfile_path bd)).
+  { unfold valid, valid_bundle in Hv. apply andb_true_iff in Hv. destruct Hv as [_ Hd]. apply distinct_nodup. exact Hd. }
+  assert (Hmap : map (by_path bd') bd = bd').
+  { apply (by_path_map bd bd' Hb Hn []). intros y []. }
+  assert (Hrel : forall x, In x bd -> bfile_ext x (by_path bd' x)).
+  { apply forall2_map_in. rewrite Hmap. exact Hb. }
+  rewrite <- Hmap in Hv' |- *.
+  destruct (compile_package_ext_g to_snake to_camel to_screaming_snake to_camel_nodot to_snake_nodot
+              bd (by_path bd') pkg D) as (D' & Hc' & He); try assumption.
+  - intros x Hx. exact (bfile_ext_path _ _ (Hrel x Hx)).
+  - intros x Hx. pose proof (Hrel x Hx) as Hr. destruct x as [j|p].
+    + destruct (by_path bd' (BJ j)) as [j'|q] eqn:E; cbn in Hr; [|contradiction]. left. exists j, j'. auto.
+    + destruct (by_path bd' (BP p)) as [j'|q] eqn:E; cbn in Hr; [contradiction|]. right. exists p. subst q. auto.
+  - exact (valid_pkgs_nonempty _ _ _ bd Hv).
+  - exists D, D'. auto.
 Qed.
